@@ -56,6 +56,10 @@ CHECKS = {
    technique="symbolic execution (z3-backed bytes in a SymFile, z3 model of struct) of read_program and the ELF/PE/Mach-O/COFF/HEX/SREC constructors on fully symbolic file contents; per path: outcome class, SMT proof that the claiming format's magic is implied by the path condition, step budget",
    text="Bounded model checking of program identification: for each input class (all contents of a given length, unfocused or with one format's magic assumed, at truncation lengths around every header/table boundary) every explored path must return one of the seven format objects whose magic is implied by the path condition; a path ending in any escaping exception or exceeding the step budget is reported with a concrete witness, which is replayed through read_program(bytes) under a CPU-time limit.",
    note="trusted: z3, symx (SymFile, symbolic ASCII/hex parsing, struct model), the per-format magic predicates; path/time caps make most explorations incomplete (counted): the claim covers the explored paths only"),
+ "C14": dict(level="model_checking", engine="E2", design="DESIGN.md section 4 C14",
+   technique="symbolic execution (z3-backed SymFile behind the real DataIO, z3 model of struct, symbolic ASCII/hex parsing) of Elf(), HEXline and SRECline; per path SMT proofs that every reported attribute equals an independent gABI / record-format locator and that acceptance <=> well-formed and checksum correct",
+   text="Bounded model checking: for each ELF case (class x byte order x 0..2 program headers x 0..2 section headers) all values of every non-steering header/table byte are covered; each path proves all Ehdr/Phdr/Shdr fields, section names, the entry point and getfileoffset(symbolic address) equal to the reference; for Intel-HEX and S-record lines every character is symbolic and acceptance/decoded fields are proven against the record specification.",
+   note="trusted: z3, symx + symstruct models (validated by concrete re-execution of path models), the reference locators; PE/Mach-O/COFF field locations are outside (only totality/magic is covered by C20); known finding: S-records with a wrong checksum are accepted"),
 }
 
 NA_REASON = "check not built yet (construction in progress)"
